@@ -1,12 +1,17 @@
 ------------------------------- MODULE WireSim -------------------------------
-(* Deep random API scripts of WireMC for the replay direction (C01): run with -simulate and RECORD = "step";  *)
-(* when a behaviour has SimDepth calls its history is printed once, each call with the serialised bytes and   *)
-(* the advertised size of the Message after it (computed here, not for every successor the simulator looks at) *)
+(* Deep random API scripts of WireMC for the replay direction (C01): run with -simulate and RECORD = "step".  *)
+(* Each step picks ONE call at random (a class of calls first, then a call of that class) among the calls     *)
+(* WireMC generates in the state - computing every successor of a state costs two orders of magnitude more -  *)
+(* and when a behaviour has SimDepth calls its history is printed once, each call with the serialised bytes   *)
+(* and the advertised size of the Message after it.                                                           *)
 EXTENDS WireMC, Json
 CONSTANT SimDepth
 VARIABLES hist, ms
+Pick == LET c == RandomElement(1..20)
+            S == CASE c <= 8 -> AddSteps [] c <= 11 -> PrependSteps [] c <= 14 -> RemoveSteps [] c <= 18 -> ReplaceSteps [] OTHER -> RemoveNameSteps
+        IN  RandomElement(IF S = {} THEN AddSteps \cup RemoveNameSteps ELSE S)
 SimInit == Init /\ hist = <<last>> /\ ms = <<m>>
-SimNext == \/ /\ Len(hist) <= SimDepth /\ Next /\ hist' = Append(hist, last') /\ ms' = Append(ms, m')
+SimNext == \/ /\ Len(hist) <= SimDepth /\ Do(Pick) /\ hist' = Append(hist, last') /\ ms' = Append(ms, m')
            \/ /\ Len(hist) = SimDepth + 1
               /\ PrintT("@@" \o ToJson([k \in 1..Len(hist) |-> hist[k] @@ [b |-> Flatten(ms[k]), z |-> FlattenedSize(ms[k])]]))
               /\ hist' = Append(hist, [op |-> "-"]) /\ UNCHANGED <<vars, ms>>
